@@ -92,6 +92,7 @@ MUTANTS = [
  ('c01_prim_axpby_swapped', 'C01', 'src/algebra/vecmath.rs', 'zip(&mut *self, x).for_each(|(y, x)| *y = a * (*x) + b * (*y));', 'zip(&mut *self, x).for_each(|(y, x)| *y = b * (*x) + a * (*y));'),
  ('c08_prim_norm_inf_no_abs', 'C08', 'src/algebra/vecmath.rs', '            out = T::max(out, v.abs());', '            out = T::max(out, v);'),
  ('c10_prim_rsqrt_is_sqrt', 'C10', 'src/algebra/vecmath.rs', 'self.scalarop(|x| T::recip(T::sqrt(x)))', 'self.scalarop(|x| T::sqrt(T::recip(x)) * x / x)'),
+ ('c14_pow_start_psi2', 'C14', R + 'core/cones/powcone.rs', 'let ψ = T::recip(α * α + (T::one() - α) * (T::one() - α));', 'let ψ: T = (2.).as_T();'),
  ('c20_println_debug', 'C20', R + 'core/solver.rs', '            if is_scaling_success {\n                StrategyCheckpoint::NoUpdate', '            if is_scaling_success {\n                println!("scaling ok");\n                StrategyCheckpoint::NoUpdate'),
  ('c20_header_wrong_m', 'C20', D + 'info_print.rs', 'writeln!(out, "  constraints   = {}", data.m)?;', 'writeln!(out, "  constraints   = {}", data.n)?;'),
  ('c18_cones_stale', 'C18', D + 'problemdata.rs', '            cones_new.as_ref().unwrap_or(&cones),\n            settings,\n        );', '            &cones,\n            settings,\n        );'),
